@@ -4,7 +4,6 @@ from .brokergen import *
 
 HARNESS = "broker"
 CONST_GROUPS = ["security", "message", "cipher", "license"]
-READY = False
 RULE = ("one case = one broker session: keygen requests over every parent kind (master, extendable with several permission "
         "masks, ordinary, expired, foreign contract, foreign master), type strings over subsets of rwslpex and junk, ttl 0 / "
         "positive / negative, channels valid / invalid / wildcard / with '#/'; the minted key is decrypted and every field "
